@@ -33,11 +33,19 @@ package redis
 //@ ghost var scriptErr error
 //@ ghost var scriptCalls int
 
+// ScriptRunCtx: the script is evaluated by go-redis' Script.Run (EVALSHA, EVAL when the server has lost the script - so a
+// restarted or flushed server never makes a reachable store look down) on the node of the store's configured type, with the
+// caller's keys and arguments, once; what comes back is that evaluation's reply. A store without a usable node counts as one
+// failed evaluation (ghosts set at that return).
 //@ func (s *Redis) ScriptRunCtx
-//@   trusted
+//@   property C03 C19
 //@   results resp, err
+//@   ghost at return#0: scriptErr = err
+//@   ghost at return#0: scriptResp = nil
+//@   ghost at return#0: scriptCalls = scriptCalls + 1
+//@   call Run#0: assert arg_recv == script && arg_c == conn && arg_ctx == ctx && sameSlice(arg_keys, keys) && sameSlice(arg_args, args)
 //@   ensures resp == scriptResp && err == scriptErr && scriptCalls == old(scriptCalls) + 1
-//@   modifies scriptResp, scriptErr, scriptCalls
+//@   modifies scriptResp, scriptErr, scriptCalls, runCmd
 
 // Ping: redisUp[s] = whether the store answers a ping at this moment (environment). A ping succeeds only against a store that
 // is up, and does succeed against one when the context it runs under can never be done (go-redis PING trusted in
@@ -81,7 +89,7 @@ package redis
 //@   ensures implies(scriptErr == nil || errors.Is(scriptErr, red.Nil), err == nil)
 //@   ensures implies(scriptErr != nil || scriptResp == nil, !ok)
 //@   ensures scriptCalls == old(scriptCalls) + 1
-//@   modifies scriptResp, scriptErr, scriptCalls
+//@   modifies scriptResp, scriptErr, scriptCalls, runCmd
 // Acquire is AcquireCtx and nothing else: the lock script runs on every call (a holder that re-acquires refreshes its lease;
 // no read-then-decide shortcut outside the script)
 //@ func (rl *RedisLock) Acquire
@@ -92,7 +100,7 @@ package redis
 //@   ensures implies(ok, err == nil && scriptErr == nil && scriptResp != nil)
 //@   ensures implies(scriptErr != nil && !errors.Is(scriptErr, red.Nil), !ok && err == scriptErr)
 //@   ensures implies(scriptErr != nil || scriptResp == nil, !ok)
-//@   modifies scriptResp, scriptErr, scriptCalls
+//@   modifies scriptResp, scriptErr, scriptCalls, runCmd
 
 // the configured lease is the one set last
 //@ func (rl *RedisLock) SetExpire
@@ -111,7 +119,7 @@ package redis
 //@   ensures implies(scriptErr == nil, err == nil)
 //@   ensures implies(ok, scriptErr == nil && int64(scriptResp.(int64)) == 1)
 //@   ensures scriptCalls == old(scriptCalls) + 1
-//@   modifies scriptResp, scriptErr, scriptCalls
+//@   modifies scriptResp, scriptErr, scriptCalls, runCmd
 // Release is ReleaseCtx and nothing else: the key is touched by the release script only (which compares the owner); no other
 // command - in particular no unconditional DEL - is issued, on any outcome
 //@ func (rl *RedisLock) Release
@@ -121,7 +129,7 @@ package redis
 //@   ensures scriptCalls == old(scriptCalls) + 1 && rdsDels == old(rdsDels)
 //@   ensures implies(scriptErr != nil, !ok && err == scriptErr)
 //@   ensures implies(ok, scriptErr == nil && int64(scriptResp.(int64)) == 1)
-//@   modifies scriptResp, scriptErr, scriptCalls
+//@   modifies scriptResp, scriptErr, scriptCalls, runCmd
 
 // ---------------------------------------------------------------------------------------------
 // C06: the cache store as seen by cacheNode. Ghost inputs of one read (rdsGetVal, rdsGetErr) and a log of writes.
